@@ -5,11 +5,11 @@
  "enforce": [],
  "replace": [],
  "annotate": [],
- "defines": ["EA_MAXOBJ=64", "EQ_LIM=3"],
+ "defines": ["EA_MAXOBJ=32", "EQ_LIM=2"],
  "models": ["models/libc_mem.c"],
  "cbmc": ["--malloc-may-fail", "--malloc-fail-null"],
- "unwind": 5, "bounded": true, "loop_contracts": false,
- "bound": "queues with offset <= 3 and len <= 3 pointer records; trimming loop and move-to-front loop fully unwound (unwinding assertions on); the postconditions of the seqptrmap_delete contract are asserted by the harness instead of being enforced through DFCC (DFCC instrumentation of this call tree runs out of memory)",
+ "unwind": 3, "bounded": true, "loop_contracts": false,
+ "bound": "queues with offset <= 2 and len <= 2 pointer records; trimming loop and move-to-front loop fully unwound (unwinding assertions on); the postconditions of the seqptrmap_delete contract are asserted by the harness instead of being enforced through DFCC (DFCC instrumentation of this call tree runs out of memory)",
  "native": true,
  "timeout": 900
 }
